@@ -88,7 +88,7 @@ func genArgs(g *G) (text string, class string, tag string, ok bool) {
 	}
 	k := g.intn(100)
 	switch {
-	case g.rare(8, 0.004):
+	case g.rare(5, 0.004):
 		// the extreme value the property names: a requested range whose last address is 255.255.255.255
 		r := g.endMaxRange()
 		if g.chance(0.5) {
